@@ -466,6 +466,18 @@ def tagNameOK (name : String) : Bool :=
   name ≠ "" && name ≠ "-" &&
   name.toList.all (fun c => c.isAlphanum || "!#$%&()*+-./:;<=>?@[]^_{|}~ ".toList.contains c)
 
+/-- the `uniqueNames` bookkeeping of `addStructFields`: the first field with a base name keeps it, the k-th
+    (k ≥ 2) gets `<base>_<k>` -/
+def nextFieldName (unique : List (String × Nat)) (baseName : String) : String × List (String × Nat) :=
+  match alookup baseName unique with
+  | some c => (baseName ++ "_" ++ toString (c + 1), unique.map (fun (p : String × Nat) => if p.1 = baseName then (p.1, c + 1) else p))
+  | none => (baseName, unique ++ [(baseName, 1)])
+
+/-- the field names given to a sequence of base names -/
+def assignFieldNames : List (String × Nat) → List String → List String
+  | _, [] => []
+  | u, b :: bs => (nextFieldName u b).1 :: assignFieldNames (nextFieldName u b).2 bs
+
 def mkTags (cfg : Config) (name : String) (required : Bool) : String :=
   " ".intercalate (cfg.tags.map fun tg => if required then s!"{tg}:\"{name}\"" else s!"{tg}:\"{name},omitempty\"")
 
@@ -658,9 +670,7 @@ mutual
         let baseName : String := match prop.node.ext with
           | some ext => (match ext.identifier with | some idn => idn | none => baseName)
           | none => baseName
-        let (fieldName, unique) := match alookup baseName unique with
-          | some c => (s!"{baseName}_{c + 1}", unique.map (fun (p : String × Nat) => if p.1 = baseName then (p.1, c + 1) else p))
-          | none => (baseName, unique ++ [(baseName, 1)])
+        let (fieldName, unique) := nextFieldName unique baseName
         let tags := mkTags cfg name isRequired
         let r ← generateTypeInline cfg doc f prop (scope ++ fieldName) none
         let propEff : Schema := match r.bounds with | some b => withBounds prop b | none => prop
@@ -889,8 +899,14 @@ def Gen.run (cfg : Config) (doc : SchemaDoc) : Except GenErr Output :=
               | none => true
           | _ => false
       | _ => false
+    -- two fields of one struct with the same Go name (only possible through a user-supplied
+    -- `goJSONSchema.identifier` containing an underscore, Props.C14.field_names_distinct) do not compile
+    let dupField := st.decls.any fun d => match d.ty with
+      | .strct fs => (fs.map (·.name)).eraseDups.length ≠ fs.length
+      | _ => false
     let issues := st.issues ++ (if missing.isEmpty then [] else ["missing-import"]) ++
-      (if noMethod then ["anyof-branch-without-method"] else [])
+      (if noMethod then ["anyof-branch-without-method"] else []) ++
+      (if dupField then ["duplicate-field-name"] else [])
     .ok { fileName := cfg.outputName, pkg := cfg.pkg, imports := st.imports, decls := st.decls,
           warnings := st.warnings ++ issues.map (fun i => "ISSUE " ++ i) }
 
